@@ -372,8 +372,28 @@ def F_C07_3():
     return False
 
 
+def F_C04_2():
+    "C04: in-place transform of a KeyedSet element loses it when the new element collides"
+    @spec_class(key="k")
+    class I:
+        k: str
+        v: int = 0
+
+    @spec_class
+    class H:
+        items: KeyedSet[I, str] = Attr(default_factory=lambda: KeyedSet(enforce_item_equivalence=True))
+
+    h = H(items=KeyedSet([I("a", v=1), I("b", v=2)], enforce_item_equivalence=True))
+    before = sorted(i.k for i in h.items)
+    try:
+        h.transform_item("a", lambda i: I("b", v=99), _inplace=True)
+    except ValueError:
+        pass
+    return sorted(i.k for i in h.items) != before
+
+
 ALL = [D1, D2, D3, D4, D5, D6, D7, D8, D9, D10, D11, D12, D13, D14, D15,
-       F_C01_1, F_C02_1, F_C04_1, F_C13_1, F_C07_1, F_C07_2, F_C07_3]
+       F_C01_1, F_C02_1, F_C04_1, F_C13_1, F_C07_1, F_C07_2, F_C07_3, F_C04_2]
 
 if __name__ == "__main__":
     want = set(sys.argv[1:])
